@@ -283,7 +283,11 @@ def make_r_fmt(disp="vfmt_disp", lit="vfmt_lit", hex2="vfmt_hex2_upper", wmap=No
                 end = code[close + 4].end
                 tail = ".unwrap()"
             else:
-                raise Unsupported("write! without .unwrap(): " + rl.norm_ws(text[code[k].start:end])[:80])
+                nxt = code[close + 1] if close + 1 < len(code) else None
+                if nxt is not None and nxt.text == "}":
+                    tail = "result"   # tail expression of a fn returning fmt::Result (String's write never fails)
+                else:
+                    raise Unsupported("write! without .unwrap(): " + rl.norm_ws(text[code[k].start:end])[:80])
             if wmap:
                 w = wmap(w)
             segs = parse_fmt(fmt)
@@ -308,6 +312,8 @@ def make_r_fmt(disp="vfmt_disp", lit="vfmt_lit", hex2="vfmt_hex2_upper", wmap=No
             before = text[code[k].start:end]
             # keep it an expression of type (): a block
             after = calls[0].rstrip(";") if len(calls) == 1 else "({ " + " ".join(calls) + " })"
+            if tail == "result":
+                after = "{ " + " ".join(calls) + " Ok(()) }"
             ctx.app("R-fmt", rl.norm_ws(before), after)
             text = text[:code[k].start] + after + text[end:]
 
@@ -542,11 +548,27 @@ class Unit:
             text = r(text, ctx)
         return text, ctx.apps
 
-    def type_item(self, path, kind, name, rules=(), key=None, opaque_fields=False, props=None, vis_pub=True, keep_derive=()):
+    def type_item(self, path, kind, name, rules=(), key=None, opaque_fields=False, props=None, vis_pub=True, keep_derive=(), keep_fields=None):
         src = self.src(path)
         it = rl.find_type(path, src, kind, name)
         raw = it.text
         text, apps = self._apply(raw, [r_attr, r_cfg] + list(rules), key or name)
+        if keep_fields is not None:
+            # R-fields: project a struct on the fields the unit's functions read (each must exist in /repo)
+            o = text.index("{")
+            c = text.rindex("}")
+            fields = [f.strip() for f in split_top(text[o + 1:c]) if f.strip()]
+            kept, names = [], []
+            for f in fields:
+                m = re.match(r"(?:pub(?:\([a-z]+\))?\s+)?(r#)?([a-z_0-9]+)\s*:", f)
+                if m and (m.group(2) in keep_fields):
+                    kept.append("    pub " + re.sub(r"^pub(\([a-z]+\))?\s+", "", f))
+                    names.append(m.group(2))
+            missing = [k for k in keep_fields if k not in names]
+            if missing:
+                raise LostAnchor("%s %s: field(s) %s not found" % (kind, name, missing))
+            text = text[:o + 1] + "\n" + "".join(k + ",\n" for k in kept) + text[c:]
+            apps.append({"rule": "R-fields", "before": "%d fields" % len(fields), "after": "kept: " + ", ".join(names)})
         if keep_derive:
             # re-attach the subset of the item's own derives that Verus understands (must be present in /repo)
             m = re.search(r"#\[derive\(([^)]*)\)\]", raw)
@@ -720,6 +742,33 @@ def r_unit_tail(text, ctx):
         return text
     ctx.app("R-unit-tail", "tail expression of type ()", "`;` appended")
     return header + "{" + inner.rstrip() + ";\n    }"
+
+
+def make_r_dyn(mapping):
+    """R-dyn: `&mut dyn Trait` / `&dyn Trait` parameters -> generic parameters (`mapping`: trait -> type-parameter name).
+    Dynamic dispatch is dropped; every impl of the trait is verified against the same trait-level contract."""
+
+    def r_dyn(text, ctx):
+        header, body = fn_split(text)
+        gens = []
+        for tr, (tp, bound) in mapping.items():
+            pat = r"&(mut\s+)?dyn\s+%s\b" % re.escape(tr)
+            if re.search(pat, header):
+                header = re.sub(pat, lambda m: "&%s%s" % (m.group(1) or "", tp), header)
+                gens.append("%s: %s" % (tp, bound))
+        if gens:
+            m = re.search(r"\bfn\s+([A-Za-z_][A-Za-z0-9_]*)\s*(<)?", header)
+            if m.group(2):
+                header = header[:m.end()] + ", ".join(gens) + ", " + header[m.end():]
+            else:
+                header = header[:m.end(1)] + "<" + ", ".join(gens) + ">" + header[m.end(1):]
+            ctx.app("R-dyn", "dyn parameters", ", ".join(gens))
+        if body is not None:
+            body, k = re.subn(r"\b([a-z_]+)\.as_writer\(\)", r"\1", body)
+            body, k2 = re.subn(r"\bself as _\b", "self", body)
+        return header + (body if body is not None else ";")
+
+    return r_dyn
 
 
 def r_dynw(text, ctx):
